@@ -701,6 +701,44 @@ fn op_cast(var: usize, src: &str, dst: &str, safe: bool, vals: &str) -> Out {
 
 // ------------------------------------------------- second entry points: encoded sources
 
+/// values placed OUTSIDE the logical window of an indirection: the payloads found under the
+/// null rows of the case, a null, and type-specific extreme / unconvertible values
+fn outside_toks(src: &str, toks: &[&str]) -> Vec<String> {
+    let mut v: Vec<String> = vec![];
+    for t in toks {
+        let (valid, p) = split_tok(t);
+        if !valid && !p.is_empty() {
+            v.push(p.to_string());
+        }
+    }
+    v.push("n".to_string());
+    let dt = parse_ty(src);
+    if let Some((lo, hi)) = int_range(src) {
+        v.push(lo.to_string());
+        v.push(hi.to_string());
+    } else if is_str(src) {
+        v.push(str_tok("n/a"));
+        v.push(str_tok("99999999999999999999999999999999999999999"));
+    } else if let Some((_, p, _)) = dec_params(&dt) {
+        v.push(nines(p as usize));
+        v.push(format!("-{}", nines(p as usize)));
+    } else if matches!(src, "f16" | "f32" | "f64") {
+        v.push(ftok(src, f64::NAN));
+        v.push(ftok(src, f64::INFINITY));
+        v.push(ftok(src, 1e300));
+    } else if matches!(src, "bin" | "lbin" | "binv") {
+        v.push("xff".to_string());
+    } else if src == "bool" || src == "null" || src.starts_with("fsb") || src.starts_with('i') && src.len() <= 4 && int_range(src).is_none() {
+        // bool / null / fixed-size binary / intervals: nothing unconvertible; a null run suffices
+    } else {
+        // temporal types stored as i32 / i64
+        let (lo, hi) = if matches!(src, "date32" | "t32:s" | "t32:ms") { (i32::MIN as i128, i32::MAX as i128) } else { (i64::MIN as i128, i64::MAX as i128) };
+        v.push(lo.to_string());
+        v.push(hi.to_string());
+    }
+    v
+}
+
 /// `C13 enc <kind> <var> <src> <dst> <safe> <vals>`: the logical column `vals` is handed to the
 /// cast as a dictionary (flavours: unused / duplicated / null dictionary values), a run-end
 /// encoded array or a slice of a longer array; the answer is the cast result, which must be what
@@ -782,6 +820,136 @@ fn op_enc(kind: &str, var: usize, src: &str, dst: &str, safe: bool, vals: &str) 
             }
             let values = build(&from, &vt, false);
             Arc::new(RunArray::<Int32Type>::try_new(&Int32Array::from(ends), values.as_ref()).expect("ree"))
+        }
+        "rees" | "lists" | "llists" | "lviews" | "fsls" | "structs" => {
+            // indirections whose physical storage extends beyond the logical window: whole runs /
+            // child ranges / struct rows outside the window hold unconvertible, null or extreme values
+            let outside = outside_toks(src, &toks);
+            let mode = f[2];
+            let (pre, post): (Vec<&str>, Vec<&str>) = match mode {
+                "f" => (outside.iter().map(|x| x.as_str()).collect(), vec![]),
+                "b" => (vec![], outside.iter().map(|x| x.as_str()).collect()),
+                _ => (outside.iter().map(|x| x.as_str()).collect(), outside.iter().rev().map(|x| x.as_str()).collect()),
+            };
+            let n = toks.len();
+            let field = Arc::new(Field::new_list_field(from.clone(), true));
+            let to_field = Arc::new(Field::new_list_field(to.clone(), true));
+            let mut all: Vec<&str> = pre.clone();
+            all.extend_from_slice(&toks);
+            all.extend_from_slice(&post);
+            let (arr, to_t): (ArrayRef, DataType) = match f[0] {
+                "rees" => {
+                    // one run per outside value, then the window run-length encoded
+                    let mut ends: Vec<i64> = vec![];
+                    let mut vt: Vec<&str> = vec![];
+                    for (i, t) in all.iter().enumerate() {
+                        let t2 = if split_tok(t).0 { *t } else { "n" };
+                        let inside = i >= pre.len() && i < pre.len() + n;
+                        if !inside || i == pre.len() || vt.last().map_or(true, |l| *l != t2) {
+                            vt.push(t2);
+                            ends.push(i as i64 + 1);
+                        } else {
+                            *ends.last_mut().unwrap() = i as i64 + 1;
+                        }
+                    }
+                    let values = build(&from, &vt, false);
+                    let ra: ArrayRef = match f[1] {
+                        "i16" => Arc::new(RunArray::<Int16Type>::try_new(&Int16Array::from(ends.iter().map(|x| *x as i16).collect::<Vec<_>>()), values.as_ref()).expect("ree")),
+                        "i64" => Arc::new(RunArray::<Int64Type>::try_new(&Int64Array::from(ends.clone()), values.as_ref()).expect("ree")),
+                        _ => Arc::new(RunArray::<Int32Type>::try_new(&Int32Array::from(ends.iter().map(|x| *x as i32).collect::<Vec<_>>()), values.as_ref()).expect("ree")),
+                    };
+                    (ra.slice(pre.len(), n), to.clone())
+                }
+                "structs" => {
+                    let child = build(&from, &all, true);
+                    let st = StructArray::new(Fields::from(vec![Field::new("a", from.clone(), true)]), vec![child], None);
+                    (Arc::new(st.slice(pre.len(), n)), DataType::Struct(Fields::from(vec![Field::new("a", to.clone(), true)])))
+                }
+                kind0 => {
+                    // lists of k rows over pre ++ window ++ post; the parent is sliced to the window
+                    let k: usize = f[1].parse().unwrap();
+                    let k = if k == 0 || n == 0 || n % k != 0 { 1 } else { k };
+                    // pad pre / post to multiples of k by repeating their last element
+                    let padto = |v: &Vec<&'static str>| v.clone();
+                    let _ = padto;
+                    let mut pre2 = pre.clone();
+                    while pre2.len() % k != 0 {
+                        pre2.push(pre2[pre2.len() - 1]);
+                    }
+                    let mut post2 = post.clone();
+                    while post2.len() % k != 0 {
+                        post2.push(post2[post2.len() - 1]);
+                    }
+                    let mut all2: Vec<&str> = pre2.clone();
+                    all2.extend_from_slice(&toks);
+                    all2.extend_from_slice(&post2);
+                    let child = build(&from, &all2, true);
+                    let total = all2.len() / k;
+                    let (skip, cnt) = (pre2.len() / k, n / k);
+                    match kind0 {
+                        "lists" => (
+                            Arc::new(ListArray::new(field, arrow_buffer::OffsetBuffer::from_lengths(vec![k; total]), child, None).slice(skip, cnt)),
+                            DataType::List(to_field),
+                        ),
+                        "llists" => (
+                            Arc::new(LargeListArray::new(field, arrow_buffer::OffsetBuffer::from_lengths(vec![k; total]), child, None).slice(skip, cnt)),
+                            DataType::LargeList(to_field),
+                        ),
+                        "lviews" => {
+                            // views address only the window; the child still holds the outside rows
+                            let offs: Vec<i32> = (0..cnt).map(|i| ((skip + i) * k) as i32).collect();
+                            (Arc::new(ListViewArray::new(field, offs.into(), vec![k as i32; cnt].into(), child, None)), DataType::ListView(to_field))
+                        }
+                        _ => (Arc::new(FixedSizeListArray::new(field, k as i32, child, None).slice(skip, cnt)), DataType::FixedSizeList(to_field, k as i32)),
+                    }
+                }
+            };
+            // the logical rows of the result (window only)
+            let pick = |r: Result<ArrayRef, String>| -> Result<ArrayRef, String> {
+                r.map(|a| match a.data_type() {
+                    DataType::List(_) => {
+                        let l = a.as_list::<i32>();
+                        let (s0, e0) = (l.value_offsets()[0] as usize, l.value_offsets()[l.len()] as usize);
+                        l.values().slice(s0, e0 - s0)
+                    }
+                    DataType::LargeList(_) => {
+                        let l = a.as_list::<i64>();
+                        let (s0, e0) = (l.value_offsets()[0] as usize, l.value_offsets()[l.len()] as usize);
+                        l.values().slice(s0, e0 - s0)
+                    }
+                    DataType::ListView(_) => {
+                        let l = a.as_list_view::<i32>();
+                        let parts: Vec<ArrayRef> = (0..l.len()).map(|i| l.value(i)).collect();
+                        if parts.is_empty() {
+                            l.values().slice(0, 0)
+                        } else {
+                            arrow_select::concat::concat(&parts.iter().map(|p| p.as_ref()).collect::<Vec<_>>()).unwrap()
+                        }
+                    }
+                    DataType::FixedSizeList(_, k) => {
+                        let l = a.as_fixed_size_list();
+                        l.values().slice(l.value_offset(0) as usize, l.len() * *k as usize)
+                    }
+                    DataType::Struct(_) => a.as_struct().column(0).clone(),
+                    _ => a,
+                })
+            };
+            let rs = pick(do_cast(&arr, &to_t, true));
+            let rt = pick(do_cast(&arr, &to_t, false));
+            let mut out = Out::new(answer(if safe { &rs } else { &rt }));
+            if !in_domain(&from, &toks) {
+                out.tags.push("ood".into());
+            }
+            if matches!(&rs, Err(e) if e == "PANIC") || matches!(&rt, Err(e) if e == "PANIC") {
+                out.tags.push("kf:panic".into());
+            }
+            let plain_toks: Vec<&str> = if f[0] == "rees" { toks.iter().map(|t| if split_tok(t).0 { *t } else { "n" }).collect() } else { toks.clone() };
+            let plain = do_cast(&build(&from, &plain_toks, true), &to, safe);
+            if answer(&plain) != out.answer {
+                out.oracle.push(format!("windowed {} casts to {} but the logical column casts to {}", kind, out.answer, answer(&plain)));
+                out.tags.push(format!("kf:window-differs:{}", f[0]));
+            }
+            return out;
         }
         "list" | "llist" | "lview" | "fsl" => {
             // the column is the child of a list array (groups of k rows); the inner cast is observed on the child
@@ -1824,7 +1992,7 @@ fn extra_boundary_cases() -> Vec<(String, String)> {
         }
     }
     // encoded entry points
-    let pairs: [(&str, &str, &str); 10] = [
+    let pairs: [(&str, &str, &str); 18] = [
         ("i32", "i8", "127,128,n:300,-128,-129,n,127,127,5,5,5,n:7"),
         ("i64", "d128:10:2", "99999999,100000000,n:100000000,-99999999,1,1,n"),
         ("d128:5:2", "d128:3:0", "99949,99950,n:99999,-99950,49,50,50,n"),
@@ -1835,8 +2003,20 @@ fn extra_boundary_cases() -> Vec<(String, String)> {
         ("u64", "d128:19:0", "9999999999999999999,10000000000000000000,18446744073709551615,n,0,0"),
         ("d256:10:0", "d128:20:5", "9999999999,n,-1,1,1"),
         ("bool", "i8", "1,0,n:1,1,1,n"),
+        ("i32", "i8", "1,2,2,n:1000,3,-128,127"),
+        ("utf8", "i64", "x31,x32,x32,n,x2d37"),
+        ("i64", "i16", "5,5,5,6"),
+        ("d128:10:2", "d128:4:0", "149,150,n:99999999,-150"),
+        ("f64", "i32", "4607182418800017408,4611686018427387904,n:9218868437227405312"),
+        ("ts:s", "ts:ns", "1,2,n:9223372036854775807,2"),
+        ("date64", "date32", "0,86400000,n:9223372036854775807"),
+        ("i16", "d32:5:1", "9999,-9999,n:32767,0"),
     ];
-    for kind in ["dict:i8:0", "dict:i32:1", "dict:u16:2", "dict:i32:4", "dict:i64:7", "dict:i32:3", "ree:run", "ree:split", "slice", "list:1", "list:2", "llist:3", "lview:2", "fsl:1", "fsl:2"] {
+    for kind in [
+        "dict:i8:0", "dict:i32:1", "dict:u16:2", "dict:i32:4", "dict:i64:7", "dict:i32:3", "ree:run", "ree:split", "slice", "list:1", "list:2", "llist:3", "lview:2", "fsl:1", "fsl:2",
+        "rees:i16:f", "rees:i16:b", "rees:i16:fb", "rees:i32:f", "rees:i32:b", "rees:i32:fb", "rees:i64:f", "rees:i64:b", "rees:i64:fb",
+        "lists:1:f", "lists:2:fb", "llists:1:b", "llists:3:fb", "lviews:1:fb", "lviews:2:f", "fsls:1:fb", "fsls:2:b", "structs:0:f", "structs:0:fb",
+    ] {
         for (src, dst, vals) in pairs {
             for safe in [1, 0] {
                 out.push((format!("C13 enc {} 0 {} {} {} {}", kind, src, dst, safe, vals), format!("op:enc g:enc-{} safe:{} nt", kind.replace(':', "-"), safe)));
@@ -2500,7 +2680,7 @@ fn main() {
                     // the same cast through an encoded source
                     let (line, tags) = gen_cast(&mut rng);
                     let f: Vec<&str> = line.splitn(7, ' ').collect();
-                    let kind = *rng.pick(&["dict:i8:0", "dict:i32:1", "dict:u16:2", "dict:i32:4", "dict:i64:7", "dict:i32:5", "ree:run", "ree:split", "slice", "list:1", "list:2", "llist:3", "lview:2", "fsl:1", "fsl:3"]);
+                    let kind = *rng.pick(&["dict:i8:0", "dict:i32:1", "dict:u16:2", "dict:i32:4", "dict:i64:7", "dict:i32:5", "ree:run", "ree:split", "slice", "list:1", "list:2", "llist:3", "lview:2", "fsl:1", "fsl:3", "rees:i16:fb", "rees:i32:f", "rees:i64:b", "rees:i32:fb", "lists:2:fb", "llists:1:f", "lviews:2:fb", "fsls:1:fb", "structs:0:fb"]);
                     let n = if f[6] == "-" { 0 } else { f[6].split(',').count() };
                     if n > 60 || tags.contains("g:float") && f[6].contains("n:") {
                         emit(&mut sink, line, tags, None);
